@@ -78,7 +78,7 @@ class Runner:
             self.clocks[name] = clk.TempoClock(num / den)
         self.routines = {}
         self.addr = addr
-        seeds = [i['a'] for body in prog['routines'].values() for i in body if i['op'] == 'K']
+        seeds = [i['a'] for body in prog['routines'].values() for i in body if i['op'] in ('K', 'KC')]
         self.lookup = {}
         for s in seeds:
             g = random.Random(s)
@@ -153,6 +153,8 @@ class Runner:
                     self.routine(i['s']).resume(None, 0)
                 elif op == 'K':
                     me.rand_seed = i['a']
+                elif op == 'KC':
+                    self.routine(i['c']).rand_seed = i['a']
                 elif op == 'D':
                     v = bi.rand(1.0)
                     g, ix = self.lookup.get(v, ('?', -1))
